@@ -22,6 +22,7 @@
 package main
 
 import (
+	"encoding/json"
 	"flag"
 	"fmt"
 	"os"
@@ -779,8 +780,16 @@ func oracleCLI(w *out.W, r result) {
 			if o.outcome != want {
 				w.Violation(h.id, "wrong-attribution", fmt.Sprintf("%s: refused with %s, the first edited applied statement is %s: %s", what, o.outcome, want, desc))
 			}
-			if h.formats[i-1] == "" && !strings.Contains(o.all, fmt.Sprintf("from file %q changed", h.name)) {
-				w.Violation(h.id, "wrong-file", fmt.Sprintf("%s: the error does not name the file: %s: %s", what, firstLines(o.all), desc))
+			// every report of the error -- the log (text or JSON) and the command's own "Error:" line -- names
+			// the file, verbatim (%q; JSON-escaped inside the JSON log)
+			plain := fmt.Sprintf("from file %q changed", h.name)
+			js, _ := json.Marshal(plain)
+			good := strings.Count(o.all, plain)
+			if esc := string(js[1 : len(js)-1]); esc != plain {
+				good += strings.Count(o.all, esc)
+			}
+			if total := strings.Count(o.all, "history changed: statement "); good == 0 || good != total {
+				w.Violation(h.id, "wrong-file", fmt.Sprintf("%s: %d report(s) of the error, %d name the file %q verbatim: %s: %s", what, total, good, h.name, firstLines(o.all), desc))
 			}
 			if len(o.ids) != 0 {
 				w.Violation(h.id, "executed-on-refuse", fmt.Sprintf("%s: statements %v executed although history changed: %s", what, o.ids, desc))
@@ -848,32 +857,40 @@ func genCLI(tier string) []hist {
 	nv := len(variants(1))
 	n, k := 3, 2
 	c := 0
-	add := func(a, b int) {
+	add := func(a, b int, both bool) {
 		js := []int{c % 2, 2} // an applied statement, the tail
 		if tier == "thorough" {
 			js = []int{0, 1, 2}
+		} else if !both {
+			js = []int{c % 2}
 		}
 		for _, j := range js {
 			h := mkHist("ws", "1_a.sql", n, k, j, a, b)
 			m := []string{"none", "file"}[c%2]
-			h.modes, h.formats = []string{m, m}, []string{"", ""}
+			h.modes, h.formats = []string{m}, []string{""}
+			if tier == "thorough" {
+				h.modes, h.formats = []string{m, m}, []string{"", ""}
+			}
 			hs = append(hs, h)
 			c++
 		}
 	}
 	for b := 1; b < nv; b++ {
-		add(0, b)
-		add(b, 0)
+		add(0, b, true)
+		add(b, 0, false)
 	}
-	add(2, 1) // a line break inside a literal becoming a blank
-	add(8, 6) // CRLF -> LF inside a multi-line statement
-	add(7, 6) // tab -> blanks
+	add(2, 1, true) // a line break inside a literal becoming a blank
+	add(8, 6, true) // CRLF -> LF inside a multi-line statement
+	add(7, 6, true) // tab -> blanks
 	// names: the refused file has every shape; every tx-mode x log format on the same database
-	for _, nm := range names {
+	for i, nm := range names {
 		h := mkHist("name", nm, 2, 1, 0, 0, 1)
 		h.modes = []string{"none", "none", "file", "file", "all", "all"}
 		h.formats = []string{"", "json", "", "json", "", "json"}
 		hs = append(hs, h)
+		if tier != "thorough" && i%3 != 1 {
+			continue
+		}
 		t := mkHist("name", nm, 2, 1, 1, 0, 1) // tail edit: resumes
 		t.modes, t.formats = []string{"none", "none"}, []string{"json", ""}
 		hs = append(hs, t)
@@ -903,7 +920,7 @@ func main() {
 		}
 	case "cli":
 		hs := genCLI(*tier)
-		w.Rule = "a file of 3 statements, 2 applied, statement j (one applied, the tail; thorough: all) rewritten base->variant and variant->base for the 14 white-space variants (+3 pairs named in the task), tx-mode none/file alternating: apply (fails), edit + `migrate hash`, apply, apply, status; + 18 file-name shapes x {edit of the applied statement: six applies = tx-mode none/file/all x default/JSON log format on the same database; tail edit: apply (JSON), apply, status}. Non-trivial = every history (k>=1); distinct by (name,j,a,b,modes)"
+		w.Rule = "a file of 3 statements, 2 applied, statement j rewritten base->variant (one applied statement and the tail) and variant->base (one of them; thorough: every j) for the 14 white-space variants (+3 pairs named in the task), tx-mode none/file alternating: apply (fails), edit + `migrate hash`, apply (thorough: twice), status; + 18 file-name shapes x edit of the applied statement: six applies = tx-mode none/file/all x default/JSON log format on the same database, status; + tail edit for 6 of the names (thorough: all): apply (JSON), apply, status. Non-trivial = every history (k>=1); distinct by (name,j,a,b,modes)"
 		for i := range hs {
 			hs[i].id = fmt.Sprintf("wscli-%d", i+1)
 		}
